@@ -51,7 +51,10 @@ def parseOp (s : String) : Option Op :=
   match words s with
   | ["own", g] => g.toNat?.map .own
   | ["own", g, _level] => g.toNat?.map .own      -- how the connection is built does not matter to the model
-  | ["newconn"] => some (.sleep 0)                -- the application opens a connection to the peer: no effect on de-duplication
+  | ["newconn"] => some (.sleep 0)
+  | ["other", _via] => some (.sleep 0)            -- another peer talks to the server: not this connection's history
+  | ["mrecv", t, m, tok, b] => do                 -- a multicast copy of a request is a copy like any other
+    some (.recv (← parseRType t) (← m.toNat?) (← parseHex? tok) (← parseBeh b))                -- the application opens a connection to the peer: no effect on de-duplication
   | ["recv", t, m, tok, b] => do
     some (.recv (← parseRType t) (← m.toNat?) (← parseHex? tok) (← parseBeh b))
   | ["par", k, t, m, tok, b] => do
